@@ -56,6 +56,9 @@ Laws ==
     /\ (t.k = "struct" /\ Len(t.f) = 2 => SizeD(t, v) = SizeD(t.f[1], v.f[1]) + SizeD(t.f[2], v.f[2]))
     /\ (t.k = "map" => SizeD(t, v) >= 8 /\ (v.kv = <<>> => SizeD(t, v) = 8))
     /\ (t.k = "string" => SizeD(t, v) = 16 + v.n)
+    \* the closed form of a linked list is the list spelled out as a tree
+    /\ \A n \in 1..6 : \A e \in {"int8", "int32", "uint64"} :
+          SizeD([k |-> "chain", n |-> n, e |-> [k |-> e]], [x |-> 0]) = SizeD(ChainT([k |-> e], n), ChainV(n))
 \* every state is written out as a driver case (evaluated once per state, -workers 1)
 Emit == CSVWrite("%1$s", <<ToJson([topnil |-> FALSE, t |-> t, v |-> v])>>, IOEnv.VERIF_GEN_OUT)
 ===========================================================================
